@@ -263,17 +263,25 @@ def transitive_rescue_rule(F, R):
                     "while f can still reach it")
     sc = F.one(r"\{impl BreadthFirstSearchSteelValVisitor for GlobalSlotRecycler\}::visit_closure$")
     rec = F.one(r"\{impl GlobalSlotRecycler\}::recycle$")
-    removes = [(i, b) for i, b in sc.calls() if re.search(r"HashSet<T,S,A>\}::remove$", b["callee"])]
+    # the scan itself, or a method of the recycler it hands the slot to (two calls deep)
+    owners = [sc]
+    seen = {sc.name}
+    for _, cb in lib.deep_calls(F, sc, depth=2):
+        c = cb["callee"]
+        if c in F.fns and c not in seen and re.search(r"GlobalSlotRecycler", c):
+            seen.add(c)
+            owners.append(F.fns[c])
+    removes = [(g, i, b) for g in owners for i, b in g.calls() if re.search(r"HashSet<T,S,A>\}::remove$", b["callee"])]
     if not removes:
         raise CheckError("anchor lost: GlobalSlotRecycler::visit_closure no longer removes referenced slots from its candidate set")
     ok1 = True
-    for i, b in removes:
-        t, f = lib.bool_branch(sc, i)
+    for g, i, b in removes:
+        t, f = lib.bool_branch(g, i)
         rec_push = False
         if t is not None:
-            region = sc.reachable_from([t], avoid=[f] if f is not None else [])
+            region = g.reachable_from([t], avoid=[f] if f is not None else [])
             for x in region:
-                blk = sc.blocks[x]
+                blk = g.blocks[x]
                 if blk["k"] == "call" and re.search(r"Vec<T,A>\}::push$", blk["callee"]) and blk["targs"] and \
                         blk["targs"][0] in ("usize",):
                     rec_push = True
@@ -281,7 +289,7 @@ def transitive_rescue_rule(F, R):
     R.inst("C06.Q", "GlobalSlotRecycler::visit_closure / a rescued slot is recorded for scanning", ok1,
            "GlobalSlotRecycler::visit_closure drops the result of slots.remove(..): a shadowed global that is still referenced "
            "is kept, but the globals its own body refers to are not — after >100 redefinitions, old f -> old g -> old h calls "
-           "#<void> or an unrelated later definition", sc.loc(removes[0][1]["line"]), sample=True)
+           "#<void> or an unrelated later definition", removes[0][0].loc(removes[0][2]["line"]), sample=True)
     visits = [i for i, b in rec.calls() if re.search(r"GlobalSlotRecycler\}::visit$", b["callee"])]
     looped = [v for v in visits if v in rec.reachable_from(rec.succ(v))]
     reads_roots = any(re.search(r"Index<I> for \[T\]\}::index$|\{impl \[T\]\}::get$", b["callee"]) for i, b in rec.calls()
